@@ -8,7 +8,9 @@ package main
 import (
 	"fmt"
 	"math/big"
+	"os"
 	"sort"
+	"strconv"
 	"strings"
 )
 
@@ -83,6 +85,44 @@ func polyConst(c *big.Rat) *Poly {
 }
 
 func (p *Poly) isZero() bool { return len(p.terms) == 0 }
+
+// sortedTerms: the terms in a fixed order (by monomial key). Every place
+// where the order in which terms are looked at can influence a decision — the
+// first term that qualifies is taken, a step budget runs out part-way — goes
+// through this, so that a verdict never depends on Go's randomised map
+// iteration order.
+func (p *Poly) sortedTerms() []*term {
+	keys := make([]string, 0, len(p.terms))
+	for k := range p.terms {
+		keys = append(keys, k)
+	}
+	sort.Strings(keys)
+	if termOrder != 0 {
+		// debugging aid (GMSA_TERM_ORDER): other fixed orders, to look for decisions that
+		// depend on the order at all
+		if termOrder == 1 {
+			for i, j := 0, len(keys)-1; i < j; i, j = i+1, j-1 {
+				keys[i], keys[j] = keys[j], keys[i]
+			}
+		} else {
+			h := func(k string) uint32 {
+				x := uint32(2166136261) ^ uint32(termOrder)*2654435761
+				for i := 0; i < len(k); i++ {
+					x = (x ^ uint32(k[i])) * 16777619
+				}
+				return x
+			}
+			sort.SliceStable(keys, func(i, j int) bool { return h(keys[i]) < h(keys[j]) })
+		}
+	}
+	out := make([]*term, len(keys))
+	for i, k := range keys {
+		out[i] = p.terms[k]
+	}
+	return out
+}
+
+var termOrder = func() int { n, _ := strconv.Atoi(os.Getenv("GMSA_TERM_ORDER")); return n }()
 
 // workUnits: a deterministic clock (polynomial terms processed). The bounded
 // searches of the analyser are limited in these units, not in wall-clock time,
@@ -499,7 +539,7 @@ func (a *RF) Subst(m map[AtomID]*RF) *RF {
 	}
 	poly := func(p *Poly) *RF {
 		acc := s.Int(0)
-		for _, t := range p.terms {
+		for _, t := range p.sortedTerms() {
 			x := s.Const(t.coef)
 			for i, v := range t.vars {
 				x = x.Mul(atomVal(v).Pow(t.exps[i]))
@@ -619,7 +659,7 @@ func (a *RF) Rewrite(f func(at *Atom, args []*RF) *RF) *RF {
 	poly := func(p *Poly) (*RF, bool) {
 		acc := s.Int(0)
 		changed := false
-		for _, t := range p.terms {
+		for _, t := range p.sortedTerms() {
 			x := s.Const(t.coef)
 			for i, v := range t.vars {
 				av := atomVal(v)
@@ -662,7 +702,7 @@ func (a *RF) Deriv(id AtomID) (*RF, bool) {
 	}
 	dp := func(p *Poly) *RF {
 		acc := s.Int(0)
-		for _, t := range p.terms {
+		for _, t := range p.sortedTerms() {
 			for i, v := range t.vars {
 				if v != id {
 					continue
@@ -698,7 +738,7 @@ func (a *RF) LinearIn(name string) (terms map[AtomID]*big.Rat, rest *RF, ok bool
 	}
 	terms = map[AtomID]*big.Rat{}
 	restP := newPoly()
-	for _, t := range a.N.terms {
+	for _, t := range a.N.sortedTerms() {
 		var hit []int
 		for i, v := range t.vars {
 			if s.atoms[v].Name == name {
@@ -741,10 +781,10 @@ func (s *Sym) inheritFlags(res *RF, from *Atom) {
 // Coeffs: the coefficients of the numerator's and denominator's terms.
 func (a *RF) Coeffs() []*big.Rat {
 	var out []*big.Rat
-	for _, t := range a.N.terms {
+	for _, t := range a.N.sortedTerms() {
 		out = append(out, t.coef)
 	}
-	for _, t := range a.D.terms {
+	for _, t := range a.D.sortedTerms() {
 		out = append(out, t.coef)
 	}
 	return out
